@@ -83,6 +83,7 @@ typedef struct {
     int fhash;       /* -1 default */
     int manual;      /* 0 auto,1 manual */
     long min, max;   /* 0 = unset */
+    long max2;       /* 0 = unset; ZCK_CHUNK_MAX set a second time, after the minimum */
     int nowrite;
 } wcfg;
 void wcfg_parse(wcfg *c, char **tok, int n);
